@@ -11,7 +11,7 @@ CORE_NOTE = ("Trusted: Lean 4.33 kernel (axioms propext, Classical.choice, Quot.
 
 P = {
  "C01": ("Lean 4 proof over the interpreter model (ev) + differential correspondence (eval/keys/cache facets) + cached-vs-uncached oracle",
-         "cache_transparent_of_fingerprint_sound: for every history on one long-lived store a MemoryCache-cached node returns its uncached outcome, provided equal fingerprints imply equal outcomes (the one hypothesis the known findings violate), plus the cache discipline (LabreaProps/C01.lean) for every program, dictionary and history; the model is tied to the code by correspondence on random histories, and every evaluation is paired with its labrea.cache.disabled() twin on the real code (plus model-guided single-key perturbations). Full transparency is false on the current tree for the catch positions of coalesce/switch (F18/F19), brace re-substitution (F22) and parameter references in option values (F26): those are listed known findings; the proved statement excludes them explicitly."),
+         "dataset_cache_transparent: for every dataset `@dataset def d(p=Option(key)): return body(p=p)` (any key / body / fuel) and every history of dictionaries holding an integer under the key, each evaluation of its cached node returns the uncached outcome (no hypothesis left); cache_transparent_of_fingerprint_sound: for every history on one long-lived store a MemoryCache-cached node returns its uncached outcome, provided equal fingerprints imply equal outcomes (the one hypothesis the known findings violate), plus the cache discipline (LabreaProps/C01.lean) for every program, dictionary and history; the model is tied to the code by correspondence on random histories, and every evaluation is paired with its labrea.cache.disabled() twin on the real code (plus model-guided single-key perturbations). Full transparency is false on the current tree for the catch positions of coalesce/switch (F18/F19), brace re-substitution (F22) and parameter references in option values (F26): those are listed known findings; the proved statement excludes them explicitly."),
  "C02": ("Lean 4 proof (trace/cache invariants of ev) + correspondence (trace/cache facets) + body/effect execution counters",
          "Model-level invariants on cache events for all histories; implementation side counts body and effect executions per dataset across exact repeats, repeats with never-mentioned keys, and top-level permutations."),
  "C03": ("Lean 4 proof (keys present, fingerprint is a function of sorted reported keys/values) + correspondence + restrict-and-re-evaluate oracle under several PYTHONHASHSEEDs",
@@ -43,7 +43,7 @@ P = {
  "C16": ("Lean 4 proof (cache untouched when caching is disabled, no log record when logging is disabled: Hoare-style invariants over ev) + correspondence on eval/trace/cache/log facets + switch cross-product oracle",
          "cache_off_no_io and logging_off_silent proved for every program, dictionary, state and fuel (whole interpreter); effects_off_none / effects_preserve_value per Computation; value preservation under every switch setting checked on the real code over the switch cross product within histories."),
  "C17": ("Lean 4 proof (scripted-backend model) + correspondence with a scripted Cache subclass + exhaustive fault scripts on the first N backend calls",
-         "The model's scripted cache mirrors a contract-following faulty backend; every evaluation under every fault script must equal its cache-off twin (exhaustive for N=4/6 on a dataset chain and on a coalesce member, random beyond; fault kinds: miss, lie-exists, fail-get, forget, and a backend that answers without fingerprinting)."),
+         "faulty_backend_transparent / faulty_backend_total: for every history and EVERY fault script (the script is part of the state) a node cached in the faulty backend terminates with its uncached outcome, provided equal fingerprints imply equal outcomes; unconditional for a real dataset family (dataset_faulty_backend_transparent). The model's scripted cache mirrors a contract-following faulty backend; every evaluation under every fault script must equal its cache-off twin (exhaustive for N=4/6 on a dataset chain and on a coalesce member, random beyond; fault kinds: miss, lie-exists, fail-get, forget, and a backend that answers without fingerprinting)."),
  "C18": ("Lean 4 proof (hook_total over subclass chains, decide over the generated class table; request events in ev) + reflection + recording pass-through handlers + substitution oracle",
          "Class-creation hooks proved for all chains and instantiated for every class of the package (table regenerated from source); request logs of real evaluations compared with the model's; substitution compared with the model's Env.subst."),
  "C19": ("Lean 4 proof (restrict fold over sorted keys; equality iff restricted options equal) + correspondence + independent restrict oracle + input snapshots",
